@@ -457,7 +457,7 @@ func (e Engine) Generate(prop string, verifSeed int64, tier string, idx int) *co
 }
 
 func (e Engine) Runs(prop, tier string) int {
-	q := map[string]int{"C17": 2500, "C18": 2000, "C11": 4000, "C12": 1500, "C07": 1500}
+	q := map[string]int{"C17": 6000, "C18": 5000, "C11": 10000, "C12": 1500, "C07": 4000}
 	t := map[string]int{"C17": 100000, "C18": 80000, "C11": 200000, "C12": 60000, "C07": 60000}
 	if tier == "thorough" {
 		return t[prop]
